@@ -139,3 +139,44 @@ Theorem defined_signal_is_listed : forall t name vs,
   trace_has t' name = true /\ In name (all_signal_names t') /\ alookup name (tr_virt t') = Some vs.
 Proof. exact registered_is_listed. Qed.
 Print Assumptions defined_signal_is_listed.
+
+(** * any visit order (proofs/VirtualOrder.v)
+    [vstate j c]: the interpreter with the trace at index j and the signal's cache holding c (nothing else
+    differs).  Premises, as in the property: timestamps are distinct; the body can be evaluated at every index,
+    leaves the state as it was and does not depend on what the cache holds.  Then reading the signal at ANY
+    sequence of indices — any order, with repeats, the trace moved between reads by whatever means — yields at
+    each index the body's value at that index, and the cache stays sound. *)
+From WalModel.proofs Require Import VirtualOrder.
+Section AnyOrder.
+  Variable ev : val -> M val.
+  Variable tid name : string.
+  Variable st0 : state.
+  Variable t0 : trace.
+  Variable body : list val.
+  Hypothesis Htid : tr_tid t0 = tid.
+  Variable ts_of : Z -> Z.
+  Hypothesis Hts : forall j, in_range t0 j -> znth (tr_ts t0) j = Some (ts_of j).
+  Hypothesis Hinj : forall j j', in_range t0 j -> in_range t0 j' -> ts_of j = ts_of j' -> j = j'.
+  Variable value_at : Z -> val.
+  Hypothesis Hbody : forall j c, in_range t0 j ->
+    exists vals, eval_args ev body (vstate tid name st0 t0 body j c) = Ok vals (vstate tid name st0 t0 body j c)
+                 /\ last_opt vals = Some (value_at j).
+
+  Theorem one_read_at_any_index : forall j c, in_range t0 j -> sound t0 ts_of value_at c ->
+    exists c', virtual_value ev tid name (vstate tid name st0 t0 body j c) = Ok (value_at j) (vstate tid name st0 t0 body j c')
+               /\ sound t0 ts_of value_at c'.
+  Proof. exact (read_at_any_index ev tid name st0 t0 body Htid ts_of Hts Hinj value_at Hbody). Qed.
+
+  Theorem reads_in_any_order_give_the_body_values : forall js c, Forall (in_range t0) js -> sound t0 ts_of value_at c ->
+    exists c2, reads ev tid name st0 t0 body js c (map value_at js) c2 /\ sound t0 ts_of value_at c2.
+  Proof. exact (reads_in_any_order ev tid name st0 t0 body Htid ts_of Hts Hinj value_at Hbody). Qed.
+End AnyOrder.
+Print Assumptions one_read_at_any_index.
+Print Assumptions reads_in_any_order_give_the_body_values.
+
+(** the premises are met by the real evaluator: v := (+ a 1), read at indices 3 0 3 4 1 0 *)
+Theorem any_order_with_the_real_evaluator :
+  exists c2, reads Api.ev0 "t" "v" ScanProofs.sig_state ScanProofs.sig_trace v_body [3; 0; 3; 4; 1; 0]
+                   [] [VInt 1; VInt 1; VInt 1; VInt 2; VInt 2; VInt 1] c2.
+Proof. exact reads_with_the_real_evaluator. Qed.
+Print Assumptions any_order_with_the_real_evaluator.
